@@ -492,6 +492,41 @@ pub fn history_scripts(n: usize) -> Shard {
     Shard { name: format!("history-{}-distinct-scripts-on-one-thread", n), scripts: v }
 }
 
+/// Sequences: every ordered pair and triple of class representatives (one per template kind of both evaluators plus
+/// unrecognised / empty / truncated / unspendable scripts), evaluated back to back by one thread: whatever the evaluator
+/// keeps from the previous script (a stack, a buffer, a "last result") must not leak into the next verdict.
+pub fn representative_sequences() -> Shard {
+    let mut reps: Vec<Vec<u8>> = Vec::new();
+    let mut seen = std::collections::BTreeSet::new();
+    for (n, s) in bitcoin_templates().into_iter().chain(fork_templates()) {
+        // payload pattern 2 only (distinct bytes), one instance per kind
+        if n.ends_with("/0") || n.ends_with("/1") {
+            continue;
+        }
+        if seen.insert(s.clone()) {
+            reps.push(s);
+        }
+    }
+    for extra in [vec![], vec![0x51], vec![0x6a], vec![0x50], vec![0x76, 0xa9, 0x14], vec![0x4c], vec![0x4e, 0xff, 0xff, 0xff, 0xff], witness(2, &[7u8; 40]), witness(16, &[7u8; 2]), op_return(&[0xff, 0xfe]), op_return(b""), multisig(1, &[&key33(4)], 1), multisig(16, &[&key33(4)], 1)] {
+        if seen.insert(extra.clone()) {
+            reps.push(extra);
+        }
+    }
+    let mut v = Vec::new();
+    for a in &reps {
+        for b in &reps {
+            v.push(a.clone());
+            v.push(b.clone());
+            for c in &reps {
+                v.push(a.clone());
+                v.push(b.clone());
+                v.push(c.clone());
+            }
+        }
+    }
+    Shard { name: format!("sequences-of-{}-representatives", reps.len()), scripts: v }
+}
+
 /// C14 length-extreme family.
 pub fn extremes() -> Shard {
     let mut v = Vec::new();
